@@ -87,7 +87,7 @@ static bool spmv_matches(const std::vector<double> &got, const Csr<double> &A, c
     return true;
 }
 static void sub_operators() {
-    long N = vf::tier(60, 1000);
+    long N = vf::tier(150, 3000);
     for (long idx = 0; idx < N; ++idx) {
         if (!vf::selected("operators", idx)) continue;
         Rng r(vf::case_seed("operators", idx)); bool exact = r.coin(0.5); Csr<double> A; std::string fam;
@@ -141,7 +141,7 @@ struct Out { size_t iters = 0; double res = 0; std::vector<double> x; size_t lev
 template <class P> size_t nlevels(const P &p) { return amgcl::verif::access::levels(p).size(); }
 
 static void sub_solves() {
-    long N = vf::tier(24, 360); const size_t MAXIT = 300;
+    long N = vf::tier(60, 1200); const size_t MAXIT = 300;
     for (long idx = 0; idx < N; ++idx) {
         if (!vf::selected("solves", idx)) continue;
         Rng r(vf::case_seed("solves", idx)); bool small = idx % 3 == 0; G5 g = gen_g5(r, idx, small ? 40 : 150, small ? (int)(560 / b) : (vf::thorough() ? 2500 : 900)); const Csr<double> &A = g.A; size_t n = A.n;
